@@ -40,7 +40,7 @@ PROP = "C14"
 VERIF = os.path.dirname(os.path.dirname(os.path.dirname(os.path.abspath(__file__))))
 
 TIERS = {
-    "quick": {"runs": 1600, "wall": 75, "chunk": 6},
+    "quick": {"runs": 1300, "wall": 70, "chunk": 6},
     "thorough": {"runs": 36000, "wall": 840, "chunk": 10},
 }
 STEP_CAP = 3_000_000
